@@ -775,8 +775,11 @@ theorem createField_isOk (F : NcFile) (P : Pre) (C : Caches) (vv : NcVar)
   rw [ncdims_of_var P hv]
   simp only
   obtain ⟨s, hs⟩ := runStages_isOk F P vv _
-    { C := C, out := { elems := [], msgs := (P.msgs.filter (fun m => m.1 == some vv.name)).map (·.2) } }
+    { C := { C with vcrs := [] },
+      out := { elems := [], msgs := (P.msgs.filter (fun m => m.1 == some vv.name)).map (·.2) } }
     hsh hg (by intro c hc; simp at hc)
+  have hv2 : patched.vcrsPerField = true := rfl
+  simp only [hv2, ↓reduceIte]
   rw [hs]
   exact ⟨_, rfl⟩
 
